@@ -431,6 +431,15 @@ func (e *env) famPools() {
 	}
 }
 
+// famSigRegression: regression case of the stale signature-verification result (recorded under C04, fixed in /repo by
+// 4499f0c6): a block whose transaction fails to execute, then a block with a transaction whose signature does not
+// verify: the second one must be refused (the model says so: it never executes), and a valid block after it accepted.
+func (e *env) famSigRegression() {
+	bl := e.build("g", []spec{{-1, kBadTx, 2}, {-1, kBadSig, 1}, {-1, kValid, 1}, {2, kValid, 1}, {3, kBadSig, 2}, {3, kValid, 1}})
+	e.runScenario(&scenario{name: "sig-regression", blocks: bl, arrivals: []int{0, 1, 2, 3, 4, 5}})
+	e.runScenario(&scenario{name: "sig-regression", blocks: bl, arrivals: []int{1, 0, 1, 2, 4, 3, 5}})
+}
+
 func Main(prop string) {
 	zerolog.SetGlobalLevel(zerolog.Disabled)
 	name := strings.ToLower(prop)
@@ -438,9 +447,13 @@ func Main(prop string) {
 	rng := run.Rng
 	w := newWorld(filepath.Join(run.Out, "nodes"))
 	e := &env{run: run, prop: prop, w: w, rng: rng, reported: map[string]int{}}
+	// NewChainService sets the process-wide execution parameters (zero fee on a private net, governance,
+	// system parameters): create one node before the producer executes anything
+	w.newNode(100, 128).close()
 	e.p = w.newProducer(rng.Fork())
 
 	e.famLead5()
+	e.famSigRegression()
 	e.famNumbers()
 	e.famPools()
 	if prop == "C05" {
